@@ -1,4 +1,4 @@
-import CoxeterVerif.Lemmas.Mutable
+import CoxeterVerif.Lemmas.Mutable2
 /-!
   # C03 — mutable shapes stay coherent under any history of mutations (ConvexPolyhedron core)
 
@@ -6,9 +6,12 @@ import CoxeterVerif.Lemmas.Mutable
   field equals its recomputation from the current vertices.  The mutators modelled are
   `_rescale` (reached by the volume, surface-area and every `*_radius` setter) and the centroid
   setter, in the statement order of the Python.  `coherent_history` lifts the one-step lemmas to
-  every operation sequence, of any length.  (`diagonalize_inertia`, `merge_faces`, `sort_faces`,
-  `to_hoomd` and the other five classes are covered by the per-step fresh-object oracle of the
-  harness, not by theorems — see the claim.)
+  every operation sequence, of any length.  The extension at the end of the file
+  (`Model/Mutable2.lean`) adds `diagonalize_inertia` and `to_hoomd` (`coherent_history2`) and the
+  state machines of `Polyhedron` (`ph_coherent_history`), `Polygon`/`ConvexPolygon` (`pg_history`),
+  `ConvexSpheropolygon` (`spg_history`) and `ConvexSpheropolyhedron` (`sph_history`).
+  (`merge_faces`, `sort_faces` are covered by the per-step fresh-object oracle of the harness, not
+  by theorems — see the claim.)
 -/
 open Scalar Mut
 set_option maxRecDepth 4000
@@ -220,7 +223,7 @@ def exState : CPState ℝ :=
 theorem exState_tris : exState.tris = (Tet.bdry ⟨⟨0,0,0⟩, ⟨1,0,0⟩, ⟨0,1,0⟩, ⟨0,0,1⟩⟩ : List (Tri ℝ)) := by
   simp [exState, CPState.tris, trisOf, exVerts, exSimp, vget, Tet.bdry]
 
-example : CPInv exState := by
+theorem exState_inv : CPInv exState := by
   refine ⟨⟨rfl, rfl, rfl, rfl, rfl⟩, ?_, ?_, ?_, ?_⟩
   · show 0 < CP.volume exState.tris
     rw [exState_tris]; unfold CP.volume CP.signedVolume Tet.bdry; unfold_model; norm_num
@@ -242,5 +245,781 @@ example : CPInv exState := by
     simp [exState, exSimp] at hs
     rcases hs with rfl | rfl | rfl | rfl <;> simp [exState, exVerts]
   · exact ⟨[⟨⟨0,0,0⟩, ⟨1,0,0⟩, ⟨0,1,0⟩, ⟨0,0,1⟩⟩], by rw [exState_tris]; simpa using ChainEq.refl _⟩
+
+end
+
+example : CPInv exState := exState_inv
+
+/-!
+  ## Extension: `diagonalize_inertia`, `to_hoomd`, and the other vertex classes
+
+  (`Model/Mutable2.lean`.)  External inputs of the steps: the `eigh` eigenvector matrix, the
+  re-oriented simplices (`SortContract`), and getter values that are not closed forms of the model.
+-/
+noncomputable section
+
+/-! ### rigid motions of a vertex list by `np.dot(vertices, Q)` -/
+
+/-- **rigid**: for `QᵀQ = 1` all distances between vertices are preserved -/
+theorem rowMul_rigid {Q : M3 ℝ} (hQ : IsOrth Q) (vs : List (V3 ℝ)) (i j : Nat) :
+    V3.norm (vget (vs.map (rowMul · Q)) i - vget (vs.map (rowMul · Q)) j)
+      = V3.norm (vget vs i - vget vs j) := by
+  rw [vget_map_rowMul, vget_map_rowMul, rowMul_sub, hQ.norm_rowMul]
+
+/-- the orientation determinant of any three edge vectors is multiplied by `det Q` -/
+theorem rowMul_orientation (Q : M3 ℝ) (vs : List (V3 ℝ)) (a b c d : Nat) :
+    let w := vs.map (rowMul · Q)
+    V3.det3 (vget w b - vget w a) (vget w c - vget w a) (vget w d - vget w a)
+      = mdet Q * V3.det3 (vget vs b - vget vs a) (vget vs c - vget vs a) (vget vs d - vget vs a) := by
+  simp only [vget_map_rowMul, rowMul_sub, det3_rowMul]
+
+/-- **never mirrors**: with `det Q = 1` the orientation of every vertex quadruple is preserved -/
+theorem rowMul_never_mirrors {Q : M3 ℝ} (hdet : mdet Q = 1) (vs : List (V3 ℝ)) (a b c d : Nat) :
+    let w := vs.map (rowMul · Q)
+    V3.det3 (vget w b - vget w a) (vget w c - vget w a) (vget w d - vget w a)
+      = V3.det3 (vget vs b - vget vs a) (vget vs c - vget vs a) (vget vs d - vget vs a) := by
+  have := rowMul_orientation Q vs a b c d
+  simp only [hdet, one_mul] at this; exact this
+
+/-- without the handedness correction an `eigh` result of determinant −1 would mirror the shape -/
+theorem rowMul_improper_mirrors {Q : M3 ℝ} (hdet : mdet Q = -1) (vs : List (V3 ℝ)) (a b c d : Nat) :
+    let w := vs.map (rowMul · Q)
+    V3.det3 (vget w b - vget w a) (vget w c - vget w a) (vget w d - vget w a)
+      = -V3.det3 (vget vs b - vget vs a) (vget vs c - vget vs a) (vget vs d - vget vs a) := by
+  have := rowMul_orientation Q vs a b c d
+  simp only [hdet, neg_one_mul] at this; exact this
+
+/-- **handedness correction**: negating the first column negates the determinant, … -/
+theorem handedness_negates (Q : M3 ℝ) : mdet (negCol0 Q) = -mdet Q := mdet_negCol0 Q
+
+/-- … so the matrix `diagonalize_inertia` uses is a proper rotation (`QᵀQ = 1`, `det Q = 1`)
+whatever the handedness of the orthogonal `eigh` result. -/
+theorem fixHanded_proper {P : M3 ℝ} (hP : IsOrth P) : IsOrth (fixHanded P) ∧ mdet (fixHanded P) = 1 :=
+  ⟨isOrth_fixHanded hP, mdet_fixHanded hP.det_pm⟩
+
+/-- **`diagonalize_inertia` (ConvexPolyhedron) is rigid and never mirrors**, for any orthogonal
+eigenvector matrix of either handedness and whatever `_sort_simplices` does to the simplices. -/
+theorem diagonalizeInertia_rigid_proper (s : CPState ℝ) {P : M3 ℝ} (hP : IsOrth P)
+    (simp' : List (Nat × Nat × Nat)) :
+    let w := (s.diagonalizeInertia P simp').verts
+    (∀ i j, V3.norm (vget w i - vget w j) = V3.norm (vget s.verts i - vget s.verts j)) ∧
+    (∀ a b c d, V3.det3 (vget w b - vget w a) (vget w c - vget w a) (vget w d - vget w a)
+      = V3.det3 (vget s.verts b - vget s.verts a) (vget s.verts c - vget s.verts a)
+          (vget s.verts d - vget s.verts a)) := by
+  obtain ⟨ho, hd⟩ := fixHanded_proper hP
+  exact ⟨fun i j => rowMul_rigid ho s.verts i j, fun a b c d => rowMul_never_mirrors hd s.verts a b c d⟩
+
+/-! ### coherence of `diagonalize_inertia` -/
+
+theorem rotate_tris (s : CPState ℝ) (Q : M3 ℝ) (simp' : List (Nat × Nat × Nat)) :
+    (s.rotate Q simp').tris = trisOf (s.verts.map (rowMul · Q)) simp' := rfl
+
+/-- the triangles after the step, as a 2-chain: the rotated old surface or its reverse -/
+theorem rotate_chain (s : CPState ℝ) (Q : M3 ℝ) {simp' : List (Nat × Nat × Nat)}
+    (hc : SortContract (s.verts.map (rowMul · Q)) s.simplices simp') :
+    ChainEq (s.rotate Q simp').tris (s.tris.map (Tri.map (rowMul · Q))) ∨
+    ChainEq (s.rotate Q simp').tris ((s.tris.map (Tri.map (rowMul · Q))).map Tri.rev) := by
+  rw [rotate_tris]
+  unfold CPState.tris
+  rw [← trisOf_map_rowMul]
+  rcases hc.orient with h | h
+  · exact Or.inl (chainEq_even _ h)
+  · exact Or.inr (chainEq_odd _ h)
+
+theorem rotate_signedVolume (s : CPState ℝ) {Q : M3 ℝ} (hQ : IsOrth Q) {simp' : List (Nat × Nat × Nat)}
+    (hc : SortContract (s.verts.map (rowMul · Q)) s.simplices simp') :
+    |CP.signedVolume (s.rotate Q simp').tris| = |CP.signedVolume s.tris| := by
+  have hd : |mdet Q| = 1 := by rcases hQ.det_pm with h | h <;> rw [h] <;> simp
+  rcases rotate_chain s Q hc with h | h
+  · rw [signedVolume_chainEq h, signedVolume_rowMul, abs_mul, hd, one_mul]
+  · rw [signedVolume_chainEq h, signedVolume_map_rev, signedVolume_rowMul, abs_neg, abs_mul, hd, one_mul]
+
+/-- **one step: `diagonalize_inertia` keeps every cache coherent** — the recomputed ones by
+construction of the step, the surface area (which the method does not recompute) because a
+rotation and a re-orientation of triangles preserve it. -/
+theorem rotate_coherent (s : CPState ℝ) {Q : M3 ℝ} (hQ : IsOrth Q) {simp' : List (Nat × Nat × Nat)}
+    (hc : SortContract (s.verts.map (rowMul · Q)) s.simplices simp') (h : s.Coherent) :
+    (s.rotate Q simp').Coherent := by
+  obtain ⟨_, ha, _, _, _⟩ := h
+  refine ⟨rfl, ?_, rfl, rfl, rfl⟩
+  show s.area = CP.surfaceArea (s.rotate Q simp').tris
+  rw [rotate_tris, surfaceArea_reorient _ hc.orient, trisOf_map_rowMul, surfaceArea_rowMul hQ, ha]; rfl
+
+/-- positively oriented closed surface: the invariant of `coherent_history` plus the outward
+orientation `_sort_simplices` establishes -/
+structure CPInv2 (s : CPState ℝ) : Prop where
+  inv : CPInv s
+  orient : 0 ≤ CP.signedVolume s.tris
+
+theorem CPInv2.vol_eq {s : CPState ℝ} (h : CPInv2 s) : s.volume = CP.signedVolume s.tris := by
+  rw [h.inv.coh.1]; unfold CP.volume; simp only [Scalar.abs_real]; exact abs_of_nonneg h.orient
+
+theorem rotate_inv (s : CPState ℝ) {Q : M3 ℝ} (hQ : IsOrth Q) {simp' : List (Nat × Nat × Nat)}
+    (hc : SortContract (s.verts.map (rowMul · Q)) s.simplices simp') (h : CPInv2 s) :
+    CPInv2 (s.rotate Q simp') := by
+  have hvol : (s.rotate Q simp').volume = s.volume := by
+    show CP.volume (s.rotate Q simp').tris = s.volume
+    rw [h.inv.coh.1]; unfold CP.volume; simp only [Scalar.abs_real]
+    exact rotate_signedVolume s hQ hc
+  refine ⟨⟨rotate_coherent s hQ hc h.inv.coh, ?_, h.inv.area, ?_, ?_⟩, hc.nonneg⟩
+  · rw [hvol]; exact h.inv.vol
+  · show InRange (s.verts.map (rowMul · Q)).length simp'
+    rw [List.length_map]; exact inRange_reorient hc.orient h.inv.rng
+  · obtain ⟨Ts, hT⟩ := h.inv.closed
+    have hrot : ∃ Ts' : List (Tet ℝ), ChainEq (s.tris.map (Tri.map (rowMul · Q))) (Ts'.flatMap Tet.bdry) :=
+      ⟨Ts.map (Tet.map (rowMul · Q)), by rw [flatMap_bdry_map]; exact ChainEq.map _ hT⟩
+    rcases rotate_chain s Q hc with hch | hch
+    · obtain ⟨Ts', hT'⟩ := hrot
+      exact ⟨Ts', hch.trans hT'⟩
+    · obtain ⟨Ts', hT'⟩ := closed_rev hrot
+      exact ⟨Ts', hch.trans hT'⟩
+
+/-- leaving the index triples as they are satisfies the contract of `_sort_simplices` for a proper
+rotation of an outward oriented surface (the contract is satisfiable) -/
+theorem sortContract_same (s : CPState ℝ) {Q : M3 ℝ} (hdet : mdet Q = 1) (h : 0 ≤ CP.signedVolume s.tris) :
+    SortContract (s.verts.map (rowMul · Q)) s.simplices s.simplices := by
+  refine ⟨Or.inl (forall₂_even_refl _), ?_⟩
+  rw [trisOf_map_rowMul, signedVolume_rowMul, hdet, one_mul]; exact h
+
+/-! ### `to_hoomd` (ConvexPolyhedron): centre, read, move back -/
+
+theorem setCentroid_volume (s : CPState ℝ) (c : V3 ℝ) (h : CPInv s) : (s.setCentroid c).volume = s.volume := by
+  show CP.volume (s.setCentroid c).tris = s.volume
+  rw [setCentroid_tris s c h.rng, h.coh.1]; unfold CP.volume; rw [signedVolume_translate_closed h.closed]
+
+/-- the centroid setter reads back: the cached centroid after `centroid = c` is `c` -/
+theorem setCentroid_reads_back (s : CPState ℝ) (c : V3 ℝ) (h : CPInv2 s) : (s.setCentroid c).centroid = c := by
+  show CP.centroid (trisOf (s.verts.map (· + (c - s.centroid))) s.simplices) s.volume = c
+  rw [trisOf_map_add _ _ _ h.inv.rng]
+  have hV := h.vol_eq
+  have ht := centroid_translate_closed (S := s.tris) h.inv.closed (c - s.centroid) hV h.inv.vol.ne'
+  rw [← h.inv.coh.2.2.1] at ht
+  unfold CPState.tris at ht
+  rw [ht]
+  cases c; cases s.centroid; ext <;> simp
+
+/-- if moving `s1` to centroid `c` lands on the vertices of a coherent `s` with the same
+combinatorics, area and volume, the result is `s` -/
+theorem setCentroid_eq_of (s1 s : CPState ℝ) (c : V3 ℝ)
+    (hverts : s1.verts.map (· + (c - s1.centroid)) = s.verts) (hsimp : s1.simplices = s.simplices)
+    (hfh : s1.faceHead = s.faceHead) (harea : s1.area = s.area) (hvol : s1.volume = s.volume)
+    (hcoh : s.Coherent) : s1.setCentroid c = s := by
+  obtain ⟨hv, _, hcen, heq, hseq⟩ := hcoh
+  obtain ⟨verts, simplices, faceHead, eqN, eqD, seqN, seqD, volume, area, centroid⟩ := s
+  obtain ⟨verts1, simplices1, faceHead1, eqN1, eqD1, seqN1, seqD1, volume1, area1, centroid1⟩ := s1
+  simp only at hverts hsimp hfh harea hvol
+  subst hsimp hfh harea hvol
+  simp only [CPState.tris] at hv hcen heq hseq
+  have e1 := congrArg Prod.fst heq
+  have e2 := congrArg Prod.snd heq
+  have e3 := congrArg Prod.fst hseq
+  have e4 := congrArg Prod.snd hseq
+  simp only at e1 e2 e3 e4
+  simp only [CPState.setCentroid, hverts, CPState.mk.injEq, true_and]
+  refine ⟨e1.symm, e2.symm, e3.symm, e4.symm, hv.symm, hcen.symm⟩
+
+/-- **`to_hoomd` leaves the object exactly as it was** (over ℝ: `v − c + c = v`, and every cache
+is recomputed from the restored vertices), **and hands out the centred vertices `v − c`**, with
+centroid `0` and the unchanged volume. -/
+theorem toHoomd_restores (s : CPState ℝ) (h : CPInv2 s) :
+    s.toHoomd.2 = s ∧ s.toHoomd.1.vertices = s.verts.map (· + (V3.zero - s.centroid)) ∧
+    s.toHoomd.1.centroid = V3.zero ∧ s.toHoomd.1.volume = s.volume := by
+  have hc1 := setCentroid_reads_back s V3.zero h
+  have hv1 := setCentroid_volume s V3.zero h.inv
+  refine ⟨?_, rfl, hc1, hv1⟩
+  show (s.setCentroid V3.zero).setCentroid s.centroid = s
+  refine setCentroid_eq_of (s.setCentroid V3.zero) s s.centroid ?_ rfl rfl rfl hv1 h.inv.coh
+  rw [hc1]
+  show (s.verts.map (· + (V3.zero - s.centroid))).map (· + (s.centroid - V3.zero)) = s.verts
+  rw [List.map_map]
+  conv_rhs => rw [← List.map_id s.verts]
+  apply List.map_congr_left
+  intro v _
+  exact v3_add_sub_cancel v s.centroid
+
+/-! ### all ConvexPolyhedron mutators in one `Op2` type -/
+
+inductive Op2 where
+  | base (op : Op)
+  | diagonalize (P : M3 ℝ) (simp' : List (Nat × Nat × Nat))
+  | toHoomd
+
+def step2 (s : CPState ℝ) : Op2 → Except String (CPState ℝ)
+  | .base op => step s op
+  | .diagonalize P simp' => .ok (s.diagonalizeInertia P simp')
+  | .toHoomd => .ok s.toHoomd.2
+
+def apply2 (s : CPState ℝ) (op : Op2) : CPState ℝ :=
+  match step2 s op with
+  | .ok s' => s'
+  | .error _ => s
+
+def run2 (s : CPState ℝ) (ops : List Op2) : CPState ℝ := ops.foldl apply2 s
+
+/-- what is assumed of the external inputs of an operation, in the state it is applied to -/
+def Op2.ValidAt (s : CPState ℝ) : Op2 → Prop
+  | .base op => op.Valid
+  | .diagonalize P simp' =>
+      IsOrth P ∧ SortContract (s.verts.map (rowMul · (fixHanded P))) s.simplices simp'
+  | .toHoomd => True
+
+def ValidRun2 : CPState ℝ → List Op2 → Prop
+  | _, [] => True
+  | s, op :: ops => op.ValidAt s ∧ ValidRun2 (apply2 s op) ops
+
+theorem apply2_base (s : CPState ℝ) (op : Op) : apply2 s (.base op) = apply s op := rfl
+
+theorem rescale_orient (s : CPState ℝ) {k : ℝ} (hk : 0 < k) (h : 0 ≤ CP.signedVolume s.tris) :
+    0 ≤ CP.signedVolume (s.rescale k).tris := by
+  rw [rescale_tris, signedVolume_smul]; positivity
+
+theorem apply_orient (s : CPState ℝ) (op : Op) (hop : op.Valid) (h : CPInv2 s) :
+    0 ≤ CP.signedVolume (apply s op).tris := by
+  unfold apply step
+  cases op with
+  | setVolume v =>
+    simp only [CPState.setVolume]
+    cases hk : setterFactor 3 s.volume v with
+    | error e => simpa [hk, bind, Except.bind] using h.orient
+    | ok k => simpa [hk, bind, Except.bind, pure, Except.pure] using
+        rescale_orient s (setterFactor_pos h.inv.vol hk) h.orient
+  | setSurfaceArea v =>
+    simp only [CPState.setSurfaceArea]
+    cases hk : setterFactor 2 s.area v with
+    | error e => simpa [hk, bind, Except.bind] using h.orient
+    | ok k => simpa [hk, bind, Except.bind, pure, Except.pure] using
+        rescale_orient s (setterFactor_pos h.inv.area hk) h.orient
+  | setRadius cur v =>
+    simp only [CPState.setRadius]
+    cases hk : setterFactor 1 cur v with
+    | error e => simpa [hk, bind, Except.bind] using h.orient
+    | ok k => simpa [hk, bind, Except.bind, pure, Except.pure] using
+        rescale_orient s (setterFactor_pos hop hk) h.orient
+  | setCentroid c =>
+    simp only
+    rw [setCentroid_tris s c h.inv.rng, signedVolume_translate_closed h.inv.closed]; exact h.orient
+
+theorem apply2_inv (s : CPState ℝ) (op : Op2) (hop : op.ValidAt s) (h : CPInv2 s) : CPInv2 (apply2 s op) := by
+  cases op with
+  | base op => exact ⟨apply_inv s op hop h.inv, apply_orient s op hop h⟩
+  | diagonalize P simp' =>
+    obtain ⟨hP, hc⟩ := hop
+    exact rotate_inv s (isOrth_fixHanded hP) hc h
+  | toHoomd =>
+    show CPInv2 s.toHoomd.2
+    rw [(toHoomd_restores s h).1]; exact h
+
+/-- **C03 (ConvexPolyhedron, all modelled mutators): every history of size / centre assignments,
+`diagonalize_inertia` and `to_hoomd` calls, of any length, keeps volume, area, centroid, face
+equations and simplex equations equal to their recomputation from the current vertices** (and
+the surface closed, outward oriented, indices in range). -/
+theorem coherent_history2 (s : CPState ℝ) (ops : List Op2) (h : CPInv2 s) (hv : ValidRun2 s ops) :
+    CPInv2 (run2 s ops) := by
+  unfold run2
+  induction ops generalizing s with
+  | nil => simpa using h
+  | cons op ops ih =>
+    simp only [List.foldl_cons]
+    exact ih (apply2 s op) (apply2_inv s op hv.1 h) hv.2
+
+/-- an operation that raises leaves the state untouched (by construction of `apply2`) -/
+theorem history2_error_leaves_state (s : CPState ℝ) (op : Op2) (e : String) (h : step2 s op = .error e) :
+    apply2 s op = s := by unfold apply2; rw [h]
+
+/-! ### Polyhedron -/
+
+theorem ph_rescale_coherent (s : PHState ℝ) {k : ℝ} (hk : 0 < k) (h : s.Coherent) : (s.rescale k).Coherent := by
+  unfold PHState.Coherent PHState.findEquations at h ⊢
+  show (s.eqN, s.eqD.map (· * k)) = CPState.findEquations (s.verts.map (V3.smul k)) (faceHeads s.faces)
+  rw [findEquations_smul hk, ← h]
+
+/-- the centroid setter and `diagonalize_inertia` end with `_find_equations()`: coherent whatever
+the state before was -/
+theorem ph_setCentroid_coherent (s : PHState ℝ) (cur c : V3 ℝ) : (s.setCentroid cur c).Coherent := rfl
+theorem ph_rotate_coherent (s : PHState ℝ) (Q : M3 ℝ) : (s.rotate Q).Coherent := rfl
+
+/-- **`Polyhedron.diagonalize_inertia` is rigid and never mirrors** -/
+theorem ph_diagonalizeInertia_rigid_proper (s : PHState ℝ) {P : M3 ℝ} (hP : IsOrth P) :
+    let w := (s.diagonalizeInertia P).verts
+    (∀ i j, V3.norm (vget w i - vget w j) = V3.norm (vget s.verts i - vget s.verts j)) ∧
+    (∀ a b c d, V3.det3 (vget w b - vget w a) (vget w c - vget w a) (vget w d - vget w a)
+      = V3.det3 (vget s.verts b - vget s.verts a) (vget s.verts c - vget s.verts a)
+          (vget s.verts d - vget s.verts a)) := by
+  obtain ⟨ho, hd⟩ := fixHanded_proper hP
+  exact ⟨fun i j => rowMul_rigid ho s.verts i j, fun a b c d => rowMul_never_mirrors hd s.verts a b c d⟩
+
+/-- **`Polyhedron.to_hoomd`**: when the centroid getter reads `0` on the centred shape, the state
+after equals the state before, and the vertices handed out are `v − c`. -/
+theorem ph_toHoomd_restores (s : PHState ℝ) (c0 : V3 ℝ) (h : s.Coherent) :
+    (s.toHoomd c0 V3.zero).2 = s ∧ (s.toHoomd c0 V3.zero).1 = s.verts.map (· + (V3.zero - c0)) := by
+  refine ⟨?_, rfl⟩
+  unfold PHState.Coherent at h
+  obtain ⟨verts, faces, eqN, eqD⟩ := s
+  have e1 := congrArg Prod.fst h
+  have e2 := congrArg Prod.snd h
+  simp only at e1 e2
+  simp only [PHState.toHoomd, PHState.setCentroid, map_add_cancel, PHState.mk.injEq, true_and]
+  exact ⟨e1.symm, e2.symm⟩
+
+/-- … which is what any translation-equivariant centroid functional (such as the exact centroid
+the getter computes) yields. -/
+theorem ph_toHoomd_restores_of_equivariant (cen : List (V3 ℝ) → V3 ℝ)
+    (hcen : ∀ vs d, cen (vs.map (· + d)) = cen vs + d) (s : PHState ℝ) (h : s.Coherent) :
+    (s.toHoomd (cen s.verts) (cen (s.setCentroid (cen s.verts) V3.zero).verts)).2 = s := by
+  have : cen (s.setCentroid (cen s.verts) V3.zero).verts = V3.zero := by
+    show cen (s.verts.map (· + (V3.zero - cen s.verts))) = V3.zero
+    rw [hcen]; exact v3_zero_add_neg _
+  rw [this]; exact (ph_toHoomd_restores s _ h).1
+
+inductive PHOp where
+  | setVolume (v : ℝ)
+  | setSurfaceArea (v : ℝ)
+  | setRadius (current v : ℝ)
+  | setCentroid (current c : V3 ℝ)
+  | diagonalize (P : M3 ℝ)
+  | toHoomd (c0 c1 : V3 ℝ)
+
+def phStep (s : PHState ℝ) : PHOp → Except String (PHState ℝ)
+  | .setVolume v => s.setVolume v
+  | .setSurfaceArea v => s.setSurfaceArea v
+  | .setRadius cur v => s.setRadius cur v
+  | .setCentroid cur c => .ok (s.setCentroid cur c)
+  | .diagonalize P => .ok (s.diagonalizeInertia P)
+  | .toHoomd c0 c1 => .ok (s.toHoomd c0 c1).2
+
+def phApply (s : PHState ℝ) (op : PHOp) : PHState ℝ :=
+  match phStep s op with
+  | .ok s' => s'
+  | .error _ => s
+
+def phRun (s : PHState ℝ) (ops : List PHOp) : PHState ℝ := ops.foldl phApply s
+
+/-- the getter a size setter divides by returns a positive number in the state it is used in -/
+def PHOp.ValidAt (s : PHState ℝ) : PHOp → Prop
+  | .setVolume _ => 0 < s.volume
+  | .setSurfaceArea _ => 0 < s.surfaceArea
+  | .setRadius cur _ => 0 < cur
+  | _ => True
+
+def PHValidRun : PHState ℝ → List PHOp → Prop
+  | _, [] => True
+  | s, op :: ops => op.ValidAt s ∧ PHValidRun (phApply s op) ops
+
+theorem phApply_coherent (s : PHState ℝ) (op : PHOp) (hop : op.ValidAt s) (h : s.Coherent) :
+    (phApply s op).Coherent := by
+  unfold phApply phStep
+  cases op with
+  | setVolume v =>
+    simp only [PHState.setVolume]
+    cases hk : setterFactor 3 s.volume v with
+    | error e => simpa [hk, bind, Except.bind] using h
+    | ok k => simpa [hk, bind, Except.bind, pure, Except.pure] using
+        ph_rescale_coherent s (setterFactor_pos hop hk) h
+  | setSurfaceArea v =>
+    simp only [PHState.setSurfaceArea]
+    cases hk : setterFactor 2 s.surfaceArea v with
+    | error e => simpa [hk, bind, Except.bind] using h
+    | ok k => simpa [hk, bind, Except.bind, pure, Except.pure] using
+        ph_rescale_coherent s (setterFactor_pos hop hk) h
+  | setRadius cur v =>
+    simp only [PHState.setRadius]
+    cases hk : setterFactor 1 cur v with
+    | error e => simpa [hk, bind, Except.bind] using h
+    | ok k => simpa [hk, bind, Except.bind, pure, Except.pure] using
+        ph_rescale_coherent s (setterFactor_pos hop hk) h
+  | setCentroid cur c => exact ph_setCentroid_coherent s cur c
+  | diagonalize P => exact ph_rotate_coherent s (fixHanded P)
+  | toHoomd c0 c1 => exact ph_setCentroid_coherent _ c1 c0
+
+/-- **C03 (Polyhedron): after every history of size / centre assignments, `diagonalize_inertia`
+and `to_hoomd` calls the stored plane equations are those of the current vertices.**
+(`volume`, `surface_area`, centroid and inertia are computed on demand from vertices, faces and
+these equations: nothing else can lag.) -/
+theorem ph_coherent_history (s : PHState ℝ) (ops : List PHOp) (h : s.Coherent) (hv : PHValidRun s ops) :
+    (phRun s ops).Coherent := by
+  unfold phRun
+  induction ops generalizing s with
+  | nil => simpa using h
+  | cons op ops ih =>
+    simp only [List.foldl_cons]
+    exact ih (phApply s op) (phApply_coherent s op hv.1 h) hv.2
+
+/-- no modelled Polyhedron mutator touches the faces -/
+theorem ph_faces_history (s : PHState ℝ) (ops : List PHOp) : (phRun s ops).faces = s.faces := by
+  unfold phRun
+  induction ops generalizing s with
+  | nil => rfl
+  | cons op ops ih =>
+    simp only [List.foldl_cons]
+    rw [ih]
+    unfold phApply phStep
+    cases op with
+    | setVolume v =>
+      simp only [PHState.setVolume]
+      cases hk : setterFactor 3 s.volume v <;> simp [bind, Except.bind, pure, Except.pure, PHState.rescale]
+    | setSurfaceArea v =>
+      simp only [PHState.setSurfaceArea]
+      cases hk : setterFactor 2 s.surfaceArea v <;> simp [bind, Except.bind, pure, Except.pure, PHState.rescale]
+    | setRadius cur v =>
+      simp only [PHState.setRadius]
+      cases hk : setterFactor 1 cur v <;> simp [bind, Except.bind, pure, Except.pure, PHState.rescale]
+    | setCentroid cur c => rfl
+    | diagonalize P => rfl
+    | toHoomd c0 c1 => rfl
+
+/-! ### Polygon / ConvexPolygon -/
+
+/-- the stored normal is perpendicular to every chord of the vertex set -/
+def Mut.PGState.Planar (s : PGState ℝ) : Prop := ∀ v ∈ s.verts, ∀ w ∈ s.verts, V3.dot s.normal (v - w) = 0
+
+theorem pg_rescale_planar (s : PGState ℝ) (k : ℝ) (h : s.Planar) : (s.rescale k).Planar := by
+  intro v hv w hw
+  obtain ⟨v0, hv0, rfl⟩ := List.mem_map.mp hv
+  obtain ⟨w0, hw0, rfl⟩ := List.mem_map.mp hw
+  have := h v0 hv0 w0 hw0
+  show V3.dot s.normal (V3.smul k v0 - V3.smul k w0) = 0
+  rw [v3smul_sub]
+  simp only [V3.dot, V3.smul_x, V3.smul_y, V3.smul_z] at this ⊢
+  linear_combination k * this
+
+theorem pg_setCentroid_planar (s : PGState ℝ) (cur c : V3 ℝ) (h : s.Planar) : (s.setCentroid cur c).Planar := by
+  intro v hv w hw
+  obtain ⟨v0, hv0, rfl⟩ := List.mem_map.mp hv
+  obtain ⟨w0, hw0, rfl⟩ := List.mem_map.mp hw
+  have := h v0 hv0 w0 hw0
+  show V3.dot s.normal (v0 + (c - cur) - (w0 + (c - cur))) = 0
+  simp only [V3.dot, V3.sub_x, V3.sub_y, V3.sub_z, V3.add_x, V3.add_y, V3.add_z] at this ⊢
+  linear_combination this
+
+inductive PGOp where
+  | setArea (v : ℝ)
+  | setPerimeter (v : ℝ)
+  | setRadius (current v : ℝ)
+  | setCentroid (current c : V3 ℝ)
+  | toHoomd (c0 c1 : V3 ℝ)
+
+def pgStep (s : PGState ℝ) : PGOp → Except String (PGState ℝ)
+  | .setArea v => s.setArea v
+  | .setPerimeter v => s.setPerimeter v
+  | .setRadius cur v => s.setRadius cur v
+  | .setCentroid cur c => .ok (s.setCentroid cur c)
+  | .toHoomd c0 c1 => .ok (s.toHoomd c0 c1).2
+
+def pgApply (s : PGState ℝ) (op : PGOp) : PGState ℝ :=
+  match pgStep s op with
+  | .ok s' => s'
+  | .error _ => s
+
+def pgRun (s : PGState ℝ) (ops : List PGOp) : PGState ℝ := ops.foldl pgApply s
+
+/-- what every Polygon mutator does: the vertices are moved by one map `v ↦ k·v + t` with
+`k > 0` (or the state is untouched), the normal is kept -/
+def PGSim (s s' : PGState ℝ) : Prop :=
+  s'.normal = s.normal ∧ ∃ k : ℝ, ∃ t : V3 ℝ, 0 < k ∧ s'.verts = s.verts.map (fun v => V3.smul k v + t)
+
+theorem pgSim_refl (s : PGState ℝ) : PGSim s s := by
+  refine ⟨rfl, 1, V3.zero, one_pos, ?_⟩
+  conv_lhs => rw [← List.map_id s.verts]
+  apply List.map_congr_left
+  intro v _; cases v; ext <;> simp
+
+theorem pgSim_trans {a b c : PGState ℝ} (h1 : PGSim a b) (h2 : PGSim b c) : PGSim a c := by
+  obtain ⟨n1, k1, t1, hk1, e1⟩ := h1
+  obtain ⟨n2, k2, t2, hk2, e2⟩ := h2
+  refine ⟨n2.trans n1, k2 * k1, V3.smul k2 t1 + t2, by positivity, ?_⟩
+  rw [e2, e1, List.map_map]
+  apply List.map_congr_left
+  intro v _; cases v; cases t1; cases t2; ext <;> simp <;> ring
+
+/-- a size getter used by a setter returns a positive number in the state it is used in -/
+def PGOp.ValidAt (s : PGState ℝ) : PGOp → Prop
+  | .setArea _ => 0 < s.area
+  | .setPerimeter _ => 0 < s.perimeter
+  | .setRadius cur _ => 0 < cur
+  | _ => True
+
+def PGValidRun : PGState ℝ → List PGOp → Prop
+  | _, [] => True
+  | s, op :: ops => op.ValidAt s ∧ PGValidRun (pgApply s op) ops
+
+theorem pg_rescale_sim (s : PGState ℝ) {k : ℝ} (hk : 0 < k) : PGSim s (s.rescale k) := by
+  refine ⟨rfl, k, V3.zero, hk, ?_⟩
+  show s.verts.map (V3.smul k) = _
+  apply List.map_congr_left
+  intro v _; cases v; ext <;> simp
+
+theorem pg_setCentroid_sim (s : PGState ℝ) (cur c : V3 ℝ) : PGSim s (s.setCentroid cur c) := by
+  refine ⟨rfl, 1, c - cur, one_pos, ?_⟩
+  show s.verts.map (· + (c - cur)) = _
+  apply List.map_congr_left
+  intro v _; cases v; ext <;> simp
+
+theorem pgApply_step (s : PGState ℝ) (op : PGOp) (hop : op.ValidAt s) (h : s.Planar) :
+    (pgApply s op).Planar ∧ PGSim s (pgApply s op) := by
+  unfold pgApply pgStep
+  cases op with
+  | setArea v =>
+    simp only [PGState.setArea]
+    cases hk : setterFactor 2 s.area v with
+    | error e => simpa [hk, bind, Except.bind] using ⟨h, pgSim_refl s⟩
+    | ok k => simpa [hk, bind, Except.bind, pure, Except.pure] using
+        (⟨pg_rescale_planar s k h, pg_rescale_sim s (setterFactor_pos hop hk)⟩ : _ ∧ _)
+  | setPerimeter v =>
+    simp only [PGState.setPerimeter]
+    cases hk : setterFactor 1 s.perimeter v with
+    | error e => simpa [hk, bind, Except.bind] using ⟨h, pgSim_refl s⟩
+    | ok k => simpa [hk, bind, Except.bind, pure, Except.pure] using
+        (⟨pg_rescale_planar s k h, pg_rescale_sim s (setterFactor_pos hop hk)⟩ : _ ∧ _)
+  | setRadius cur v =>
+    simp only [PGState.setRadius]
+    cases hk : setterFactor 1 cur v with
+    | error e => simpa [hk, bind, Except.bind] using ⟨h, pgSim_refl s⟩
+    | ok k => simpa [hk, bind, Except.bind, pure, Except.pure] using
+        (⟨pg_rescale_planar s k h, pg_rescale_sim s (setterFactor_pos hop hk)⟩ : _ ∧ _)
+  | setCentroid cur c => exact ⟨pg_setCentroid_planar s cur c h, pg_setCentroid_sim s cur c⟩
+  | toHoomd c0 c1 =>
+    exact ⟨pg_setCentroid_planar _ c1 c0 (pg_setCentroid_planar s c0 V3.zero h),
+      pgSim_trans (pg_setCentroid_sim s c0 V3.zero) (pg_setCentroid_sim _ c1 c0)⟩
+
+/-- **C03 / C08 (Polygon, ConvexPolygon): every history of mutations is one similarity
+`v ↦ k·v + t`, `k > 0`, of the vertex list, the stored normal is never touched and stays
+perpendicular to the polygon** — so a fresh polygon built from the current vertices and the
+stored normal has the same plane; nothing else is stored. -/
+theorem pg_history (s : PGState ℝ) (ops : List PGOp) (h : s.Planar) (hv : PGValidRun s ops) :
+    (pgRun s ops).Planar ∧ PGSim s (pgRun s ops) := by
+  unfold pgRun
+  induction ops generalizing s with
+  | nil => exact ⟨h, pgSim_refl s⟩
+  | cons op ops ih =>
+    simp only [List.foldl_cons]
+    obtain ⟨hp, hs⟩ := pgApply_step s op hv.1 h
+    obtain ⟨hp', hs'⟩ := ih (pgApply s op) hp hv.2
+    exact ⟨hp', pgSim_trans hs hs'⟩
+
+/-- **`Polygon.to_hoomd`** restores the vertices exactly and hands out `v − c` -/
+theorem pg_toHoomd_restores (s : PGState ℝ) (c0 : V3 ℝ) :
+    (s.toHoomd c0 V3.zero).2 = s ∧ (s.toHoomd c0 V3.zero).1 = s.verts.map (· + (V3.zero - c0)) := by
+  refine ⟨?_, rfl⟩
+  obtain ⟨verts, normal⟩ := s
+  simp only [PGState.toHoomd, PGState.setCentroid, map_add_cancel]
+
+/-! ### ConvexSpheropolygon -/
+
+inductive SPGOp where
+  | setRadius (v : ℝ)
+  | setArea (v : ℝ)
+  | setPerimeter (v : ℝ)
+  | toHoomd (c0 c0' : V3 ℝ)
+
+def spgStep (s : SPGState ℝ) : SPGOp → Except String (SPGState ℝ)
+  | .setRadius v => s.setRadiusAbs v
+  | .setArea v => s.setArea v
+  | .setPerimeter v => s.setPerimeter v
+  | .toHoomd c0 c0' => .ok (s.toHoomd c0 c0').2
+
+def spgApply (s : SPGState ℝ) (op : SPGOp) : SPGState ℝ :=
+  match spgStep s op with
+  | .ok s' => s'
+  | .error _ => s
+
+def spgRun (s : SPGState ℝ) (ops : List SPGOp) : SPGState ℝ := ops.foldl spgApply s
+
+structure SPGInv (s : SPGState ℝ) : Prop where
+  planar : s.core.Planar
+  radius : 0 ≤ s.radius
+
+def SPGOp.ValidAt (s : SPGState ℝ) : SPGOp → Prop
+  | .setArea _ => 0 < s.area
+  | .setPerimeter _ => 0 < s.perimeter
+  | _ => True
+
+def SPGValidRun : SPGState ℝ → List SPGOp → Prop
+  | _, [] => True
+  | s, op :: ops => op.ValidAt s ∧ SPGValidRun (spgApply s op) ops
+
+theorem spg_rescale_inv (s : SPGState ℝ) {k : ℝ} (hk : 0 ≤ k) (h : SPGInv s) :
+    SPGInv ⟨s.core.rescale k, s.radius * k⟩ :=
+  ⟨pg_rescale_planar s.core k h.planar, mul_nonneg h.radius hk⟩
+
+theorem spgApply_inv (s : SPGState ℝ) (op : SPGOp) (hop : op.ValidAt s) (h : SPGInv s) :
+    SPGInv (spgApply s op) := by
+  unfold spgApply spgStep
+  cases op with
+  | setRadius v =>
+    simp only
+    by_cases hv : 0 ≤ v
+    · rw [spg_setRadiusAbs_ok s hv]; exact ⟨h.planar, hv⟩
+    · have : ¬ (lit 0 : ℝ) ≤ v := by simpa [Scalar.lit] using hv
+      unfold SPGState.setRadiusAbs; rw [if_neg this]; exact h
+  | setArea v =>
+    simp only [SPGState.setArea]
+    cases hk : setterFactor 2 s.area v with
+    | error e => simpa [hk, bind, Except.bind] using h
+    | ok k =>
+      have hk0 := (setterFactor_pos hop hk).le
+      simpa [hk, bind, Except.bind, spg_rescale_ok s hk0 h.radius] using spg_rescale_inv s hk0 h
+  | setPerimeter v =>
+    simp only [SPGState.setPerimeter]
+    cases hk : setterFactor 1 s.perimeter v with
+    | error e => simpa [hk, bind, Except.bind] using h
+    | ok k =>
+      have hk0 := (setterFactor_pos hop hk).le
+      simpa [hk, bind, Except.bind, spg_rescale_ok s hk0 h.radius] using spg_rescale_inv s hk0 h
+  | toHoomd c0 c0' => exact ⟨pg_setCentroid_planar s.core c0' c0 h.planar, h.radius⟩
+
+/-- **C03 (ConvexSpheropolygon): every history keeps the rounding radius non-negative and the
+core polygon in the plane of its stored normal** (the class stores nothing else). -/
+theorem spg_history (s : SPGState ℝ) (ops : List SPGOp) (h : SPGInv s) (hv : SPGValidRun s ops) :
+    SPGInv (spgRun s ops) := by
+  unfold spgRun
+  induction ops generalizing s with
+  | nil => simpa using h
+  | cons op ops ih =>
+    simp only [List.foldl_cons]
+    exact ih (spgApply s op) (spgApply_inv s op hv.1 h) hv.2
+
+/-- **`ConvexSpheropolygon.to_hoomd` as it is**: both reads of the core's centroid getter see the
+same vertices, so the "move back" is the identity — the state is unchanged — but the vertices
+handed out are the stored ones, NOT centred (known finding of C19; modelled as it is). -/
+theorem spg_toHoomd_identity (s : SPGState ℝ) (c0 : V3 ℝ) :
+    (s.toHoomd c0 c0).2 = s ∧ (s.toHoomd c0 c0).1 = s.core.verts := by
+  refine ⟨?_, rfl⟩
+  obtain ⟨⟨verts, normal⟩, radius⟩ := s
+  simp only [SPGState.toHoomd, PGState.setCentroid, SPGState.mk.injEq, PGState.mk.injEq, and_true]
+  conv_rhs => rw [← List.map_id verts]
+  apply List.map_congr_left
+  intro v _
+  exact v3_add_self_sub v c0
+
+/-! ### ConvexSpheropolyhedron -/
+
+inductive SPHOp where
+  | setRadius (v : ℝ)
+  | setSize (degree : Nat) (current v : ℝ)
+  | toHoomd
+
+def sphStep (s : SPHState ℝ) : SPHOp → Except String (SPHState ℝ)
+  | .setRadius v => s.setRadiusAbs v
+  | .setSize deg cur v => s.setSize deg cur v
+  | .toHoomd => .ok s.toHoomd.2
+
+def sphApply (s : SPHState ℝ) (op : SPHOp) : SPHState ℝ :=
+  match sphStep s op with
+  | .ok s' => s'
+  | .error _ => s
+
+def sphRun (s : SPHState ℝ) (ops : List SPHOp) : SPHState ℝ := ops.foldl sphApply s
+
+structure SPHInv (s : SPHState ℝ) : Prop where
+  core : CPInv2 s.core
+  radius : 0 ≤ s.radius
+
+def SPHOp.Valid : SPHOp → Prop
+  | .setSize _ cur _ => 0 < cur
+  | _ => True
+
+theorem sphApply_inv (s : SPHState ℝ) (op : SPHOp) (hop : op.Valid) (h : SPHInv s) : SPHInv (sphApply s op) := by
+  unfold sphApply sphStep
+  cases op with
+  | setRadius v =>
+    simp only
+    by_cases hv : 0 ≤ v
+    · rw [sph_setRadiusAbs_ok s hv]; exact ⟨h.core, hv⟩
+    · have : ¬ (lit 0 : ℝ) ≤ v := by simpa [Scalar.lit] using hv
+      unfold SPHState.setRadiusAbs; rw [if_neg this]; exact h
+  | setSize deg cur v =>
+    simp only [SPHState.setSize]
+    cases hk : setterFactor deg cur v with
+    | error e => simpa [hk, bind, Except.bind] using h
+    | ok k =>
+      have hk0 := setterFactor_pos hop hk
+      have hinv : SPHInv ⟨s.core.rescale k, s.radius * k⟩ :=
+        ⟨⟨rescale_inv s.core hk0 h.core.inv, rescale_orient s.core hk0 h.core.orient⟩,
+          mul_nonneg h.radius hk0.le⟩
+      simpa [hk, bind, Except.bind, sph_rescale_ok s hk0.le h.radius] using hinv
+  | toHoomd =>
+    show SPHInv ⟨s.core.toHoomd.2, s.radius⟩
+    rw [(toHoomd_restores s.core h.core).1]; exact h
+
+/-- **C03 (ConvexSpheropolyhedron): every history of rounding-radius / volume / surface-area /
+mean-curvature assignments and `to_hoomd` calls keeps every cache of the core polyhedron
+coherent and the rounding radius non-negative.** -/
+theorem sph_history (s : SPHState ℝ) (ops : List SPHOp) (hops : ∀ op ∈ ops, op.Valid) (h : SPHInv s) :
+    SPHInv (sphRun s ops) := by
+  unfold sphRun
+  induction ops generalizing s with
+  | nil => simpa using h
+  | cons op ops ih =>
+    simp only [List.foldl_cons]
+    exact ih (sphApply s op) (fun o ho => hops o (List.mem_cons_of_mem _ ho))
+      (sphApply_inv s op (hops op List.mem_cons_self) h)
+
+/-- **`ConvexSpheropolyhedron.to_hoomd`** restores the object and hands out `v − c` -/
+theorem sph_toHoomd_restores (s : SPHState ℝ) (h : SPHInv s) :
+    s.toHoomd.2 = s ∧ s.toHoomd.1.vertices = s.core.verts.map (· + (V3.zero - s.core.centroid)) := by
+  obtain ⟨h1, h2, _, _⟩ := toHoomd_restores s.core h.core
+  refine ⟨?_, h2⟩
+  show (⟨s.core.toHoomd.2, s.radius⟩ : SPHState ℝ) = s
+  rw [h1]
+
+
+/-! ### non-vacuity of the extension -/
+
+/-- an `eigh`-like orthogonal matrix of the wrong handedness (a coordinate swap) -/
+def exP : M3 ℝ := ⟨0, 1, 0, 1, 0, 0, 0, 0, 1⟩
+
+theorem exP_orth : IsOrth exP := by constructor <;> norm_num [exP]
+
+example : mdet exP = -1 ∧ mdet (fixHanded exP) = 1 ∧ IsOrth (fixHanded exP) := by
+  have h : mdet exP = -1 := by norm_num [exP, mdet_eq]
+  exact ⟨h, mdet_fixHanded (Or.inr h), isOrth_fixHanded exP_orth⟩
+
+theorem exState_inv2 : CPInv2 exState := by
+  refine ⟨exState_inv, ?_⟩
+  rw [exState_tris]; unfold CP.signedVolume Tet.bdry; unfold_model; norm_num
+
+/-- the hypotheses of `coherent_history2` are satisfiable on a history that uses every kind of
+operation: `diagonalize_inertia` (with an improper `eigh` matrix), a size setter, a centroid
+setter, `to_hoomd`. -/
+example : ValidRun2 exState
+    [.diagonalize exP exState.simplices, .base (.setVolume 2), .base (.setCentroid ⟨1, 2, 3⟩), .toHoomd] := by
+  refine ⟨⟨exP_orth, ?_⟩, trivial, trivial, trivial, trivial⟩
+  exact sortContract_same exState (fixHanded_proper exP_orth).2 exState_inv2.orient
+
+example : CPInv2 (run2 exState
+    [.diagonalize exP exState.simplices, .base (.setVolume 2), .base (.setCentroid ⟨1, 2, 3⟩), .toHoomd]) := by
+  refine coherent_history2 _ _ exState_inv2 ⟨⟨exP_orth, ?_⟩, trivial, trivial, trivial, trivial⟩
+  exact sortContract_same exState (fixHanded_proper exP_orth).2 exState_inv2.orient
+
+def exFaces : List (List Nat) := [[0, 2, 1], [0, 1, 3], [1, 2, 3], [0, 3, 2]]
+
+def exPH : PHState ℝ :=
+  ⟨exVerts, exFaces, (PHState.findEquations exVerts exFaces).1, (PHState.findEquations exVerts exFaces).2⟩
+
+example : exPH.Coherent ∧
+    PHValidRun exPH [.setRadius 1 2, .setCentroid ⟨0, 0, 0⟩ ⟨1, 1, 1⟩, .diagonalize exP, .toHoomd ⟨1, 1, 1⟩ ⟨0, 0, 0⟩] :=
+  ⟨rfl, one_pos, trivial, trivial, trivial, trivial⟩
+
+def exPG : PGState ℝ := ⟨[⟨0, 0, 0⟩, ⟨1, 0, 0⟩, ⟨0, 1, 0⟩], ⟨0, 0, 1⟩⟩
+
+theorem exPG_planar : exPG.Planar := by
+  intro v hv w hw
+  simp only [exPG, List.mem_cons, List.not_mem_nil, or_false] at hv hw
+  rcases hv with rfl | rfl | rfl <;> rcases hw with rfl | rfl | rfl <;> simp [exPG, V3.dot]
+
+example : exPG.Planar ∧ PGValidRun exPG [.setRadius 1 3, .setCentroid ⟨0, 0, 0⟩ ⟨2, 2, 0⟩] :=
+  ⟨exPG_planar, one_pos, trivial, trivial⟩
+
+example : SPGInv ⟨exPG, 1 / 2⟩ ∧ SPGValidRun ⟨exPG, 1 / 2⟩ [.setRadius 0, .toHoomd ⟨0, 0, 0⟩ ⟨0, 0, 0⟩] :=
+  ⟨⟨exPG_planar, by norm_num⟩, trivial, trivial, trivial⟩
+
+example : SPHInv ⟨exState, 1 / 2⟩ ∧ ∀ op ∈ [SPHOp.setSize 3 1 8, .setRadius 0, .toHoomd], op.Valid := by
+  refine ⟨⟨exState_inv2, by norm_num⟩, ?_⟩
+  intro op hop
+  simp only [List.mem_cons, List.not_mem_nil, or_false] at hop
+  rcases hop with rfl | rfl | rfl
+  · exact one_pos
+  · trivial
+  · trivial
 
 end
